@@ -360,6 +360,24 @@ func (x *Exec) merge(states []*State) *State {
 		}
 	}
 	for _, gk := range sortedKeys(gkeys) {
+		if strings.HasPrefix(gk, "$cap:") {
+			// tracked slice capacity: known after the merge only if known on every path
+			all := true
+			for _, s := range live {
+				if _, has := s.ghost[gk]; !has {
+					all = false
+				}
+			}
+			if !all {
+				continue
+			}
+			vals := make([]string, len(live))
+			for i, s := range live {
+				vals[i] = s.ghost[gk].S
+			}
+			res.ghost[gk] = T{S: pick(vals, "Int", "cap"), Ty: tyInt}
+			continue
+		}
 		vals := make([]string, len(live))
 		var proto T
 		for i, s := range live {
